@@ -1,5 +1,5 @@
 (* C33 — proofs about merge (append of page trees, divider pages) and zip merge. *)
-From Coq Require Import ZArith List Bool Lia ZifyBool ZifyNat.
+From Coq Require Import ZArith List Bool Lia ZifyBool ZifyNat FinFun.
 From PV Require Import Lib.GoInt C33.Pages C33.Model C33.ProofsSplit.
 Import ListNotations.
 Open Scope Z_scope.
@@ -309,3 +309,53 @@ Section ZipProof.
           apply forallb_forall. intros x Hx. apply in_map_iff in Hx. destruct Hx as [y [<- _]]. reflexivity.
   Qed.
 End ZipProof.
+
+(* ---------------- renumbering of source objects ---------------- *)
+Lemma new_numbers_eq keys dsize :
+  new_numbers keys dsize = map (fun i => dsize + Z.of_nat i) (seq 0 (length keys)).
+Proof.
+  unfold new_numbers, renumber. generalize (seq 0 (length keys)) (seq_length (length keys) 0).
+  intros l Hl. revert l Hl. induction keys as [|k ks IH]; intros [|x l] Hl; simpl in *; try discriminate; [reflexivity|].
+  f_equal. apply IH. lia.
+Qed.
+
+(* every source object gets a FRESH number: in [dsize, dsize + #source), and no two get the same *)
+Lemma renumber_fresh keys dsize :
+  Forall (fun n => dsize <= n < dsize + lenZ keys) (new_numbers keys dsize) /\
+  NoDup (new_numbers keys dsize) /\ length (new_numbers keys dsize) = length keys.
+Proof.
+  rewrite new_numbers_eq. split; [|split].
+  - apply Forall_forall. intros n Hn. apply in_map_iff in Hn. destruct Hn as [i [<- Hi]].
+    apply in_seq in Hi. unfold lenZ. lia.
+  - apply Injective_map_NoDup; [|apply seq_NoDup]. intros a b H. lia.
+  - rewrite map_length, seq_length. reflexivity.
+Qed.
+
+Lemma find_none_fresh {O : Type} (l : list (Z * O)) n :
+  Forall (fun kv => fst kv <> n) l -> find (fun kv => fst kv =? n) l = None.
+Proof.
+  induction 1 as [|kv l H _ IH]; [reflexivity|]. simpl.
+  replace (fst kv =? n) with false by lia. exact IH.
+Qed.
+
+(* merging never touches an object of the destination, and keeps "every number is below Size" *)
+Lemma merge_dest_objects {O : Type} (dest : Z -> option O) (src : list (Z * O)) dsize :
+  0 <= dsize -> (forall n, dest n <> None -> 0 <= n < dsize) ->
+  (forall n, dest n <> None -> merged_table dest src dsize n = dest n) /\
+  (forall n, merged_table dest src dsize n <> None -> 0 <= n < merged_size src dsize).
+Proof.
+  intros Hd Hinv.
+  destruct (renumber_fresh (map fst src) dsize) as [Hr [_ Hlen]]. rewrite map_length in Hlen.
+  unfold lenZ in Hr. rewrite map_length in Hr.
+  set (nn := new_numbers (map fst src) dsize) in *.
+  split.
+  - intros n Hn. unfold merged_table. fold nn. rewrite find_none_fresh; [reflexivity|].
+    apply Forall_forall. intros [k o] Hin. apply in_combine_l in Hin. simpl.
+    rewrite Forall_forall in Hr. specialize (Hr k Hin). specialize (Hinv n Hn). lia.
+  - intros n. unfold merged_table, merged_size. fold nn.
+    destruct (find (fun kv => fst kv =? n) (combine nn (map snd src))) as [kv|] eqn:Ef.
+    + intros _. apply find_some in Ef. destruct Ef as [Hin He]. destruct kv as [k o].
+      apply in_combine_l in Hin. rewrite Forall_forall in Hr. specialize (Hr k Hin).
+      simpl in He. unfold lenZ. lia.
+    + intros Hn. specialize (Hinv n Hn). unfold lenZ. lia.
+Qed.
